@@ -27,4 +27,11 @@ theorem code8_64_2_params : (code8_64_2.n, code8_64_2.K, code8_64_2.d) = (8, 64,
 theorem code10_4_4_params : (code10_4_4.n, code10_4_4.K, code10_4_4.d) = (10, 4, 4) := by decide
 theorem code11_2_5_params : (code11_2_5.n, code11_2_5.K, code11_2_5.d) = (11, 2, 5) := by decide
 
+/-- **each shipped code lists at least as many stabilizer strings as shipped** (4, 3, 2, 2, 4, 2, 8, 10; with
+`listed_independent` these are independent, so the lists of the six codes where this is `n − log2 K` generate the whole
+stabilizer group; ((6,4,2)) lists 2 of 4 and ((8,8,3)) 4 of 5 generators). -/
+theorem listed_counts :
+    (([code523, code422, code442, code642, code883, code8_64_2, code10_4_4, code11_2_5].map (·.listed.length)).zip
+      [4, 3, 2, 2, 4, 2, 8, 10]).all (fun p => decide (p.2 ≤ p.1)) = true := by decide
+
 end Numqi.C19
